@@ -11,13 +11,15 @@ for i in ids:
     d = os.path.join(V, 'seeded', i)
     meta = json.load(open(os.path.join(d, 'meta.json')))
     checks = meta.get('confirmed', {}).get('detected_by') or [meta['property']]
-    r = subprocess.run([sys.executable, os.path.join(V, 'tools', 'eval_mutant.py'), d, '--seeds', '0,1,2', '--skip-baseline',
+    r = subprocess.run([sys.executable, os.path.join(V, 'tools', 'eval_mutant.py'), d, '--seeds', '0,1,2', '--skip-baseline', '--no-demo',
                         '--checks', ','.join(checks)], stdout=subprocess.PIPE, stderr=subprocess.STDOUT)
     t = r.stdout.decode()
     try:
         o = json.loads(t[t.index('{'):])
     except Exception:
         print(f'{i}: evaluation failed: {t[-400:]}'); bad += 1; continue
+    if 'checks' not in o:
+        print(f"{i}: patch does not apply to the tree under test: {o.get('apply_output', '')[:200]}"); bad += 1; continue
     per = {c: [o['checks'][f'{c}@{s}']['rc'] for s in (0, 1, 2)] for c in checks}
     ok = o.get('patch_applies') and all(1 in v for v in per.values())
     print(f"{i}: {'caught' if ok else 'MISSED'}  applies={o.get('patch_applies')}  exit codes per seed: {per}")
